@@ -22,6 +22,10 @@ import traceback
 
 HERE = os.path.dirname(os.path.abspath(__file__))
 VERIF = os.path.dirname(HERE)
+# Where evidence/, replays/ and .work/ are written. Always /verif for the registered checks; the mutant self-test
+# (vt/killmatrix.py) points it at a scratch directory so that runs against a broken scratch copy of the library never
+# overwrite the committed evidence.
+OUT = os.environ.get("VERIF_OUT") or VERIF
 if VERIF not in sys.path:
     sys.path.insert(0, VERIF)
 
@@ -197,7 +201,7 @@ def main(argv):
         shards[k].append(cases[j])
         loads[k] += float(cases[j].get("cost", 1.0))
 
-    work = os.path.join(VERIF, ".work", f"{pid}-{os.getpid()}")
+    work = os.path.join(OUT, ".work", f"{pid}-{os.getpid()}")
     os.makedirs(work, exist_ok=True)
     procs = []
     for k, sh in enumerate(shards):
@@ -273,7 +277,7 @@ def main(argv):
     for mech, (kf, vs) in sorted(known_hit.items()):
         print(f"KNOWN-FINDING: property={pid} {kf.get('what', mech)} [{len(vs)} observation(s)]")
 
-    os.makedirs(os.path.join(VERIF, "replays"), exist_ok=True)
+    os.makedirs(os.path.join(OUT, "replays"), exist_ok=True)
     seen_mech = {}
     for v in new:
         seen_mech.setdefault(v["mechanism"], []).append(v)
@@ -282,7 +286,7 @@ def main(argv):
         v = vs[0]
         case = case_by_key.get(v.get("case_key"), {"key": v.get("case_key")})
         h = hashlib.sha1((pid + mech + str(v.get("case_key"))).encode()).hexdigest()[:10]
-        path = os.path.join(VERIF, "replays", f"{pid}-{h}.json")
+        path = os.path.join(OUT, "replays", f"{pid}-{h}.json")
         with open(path, "w") as f:
             json.dump(_jsonable({"property": pid, "tier": tier, "seed": seed, "case": case, "violation": v,
                                  "same_mechanism_cases": [x.get("case_key") for x in vs][:50]}), f, indent=1)
@@ -326,14 +330,14 @@ def main(argv):
         "wall_s": round(wall, 2),
         "violations": len(new),
     }
-    os.makedirs(os.path.join(VERIF, "evidence"), exist_ok=True)
-    with open(os.path.join(VERIF, "evidence", f"{pid}.json"), "w") as f:
+    os.makedirs(os.path.join(OUT, "evidence"), exist_ok=True)
+    with open(os.path.join(OUT, "evidence", f"{pid}.json"), "w") as f:
         json.dump(_jsonable(ev), f, indent=1)
 
     import shutil
     shutil.rmtree(work, ignore_errors=True)
     try:
-        os.rmdir(os.path.join(VERIF, ".work"))
+        os.rmdir(os.path.join(OUT, ".work"))
     except OSError:
         pass
 
